@@ -2,7 +2,7 @@
    Cao.HandleTableProofs (on top of Cao.HashMapProofs / Cao.ProbeProofs), Cao.HandleTableInst. *)
 From Coq Require Import Arith NArith List Bool.
 Import ListNotations.
-From Cao Require Import Bits ProbeDefs HashMap HashMapProofs HandleTable HandleTableProofs
+From Cao Require Import Bits BitsProofs ProbeDefs HashMap HashMapProofs HandleTable HandleTableProofs
      HandleTableConsts HandleTableInst HashMapConserve HandleTableConserve.
 
 Notation CTInv := (TInv (V:=_) fib_home32).
@@ -137,3 +137,19 @@ Proof.
     ht_min_cap_ge2, ht_min_cap_pow2, ht_reserve_cap_ge.
 Qed.
 Print Assumptions C13_step_conserves.
+
+(* The only key the table refuses is the handle 0 (the marker of an empty slot).  Since 3f22e7c "handles are
+   never 0" no constructor of Handle produces it: Handle::from_bytes / from_str / from_slice / from_bytes_iter
+   (FNV-1a-32 of the bytes), Handle::from_u32 / from_u64 / from_i64 (hash_u64) and Handle + Handle (xor) map a
+   result of 0 to 1.  (Before, a name, a card index path or a closure label that hashed to 0 reached
+   insert / entry with the key 0: findings N-C04-1..3.) *)
+Theorem C13_constructed_handles_nonzero :
+  (forall bs : list N, handle_of_bytes bs <> 0%N) /\
+  (forall k : N, handle_from_u32 k <> 0%N) /\
+  (forall k : N, handle_from_u64 k <> 0%N) /\
+  (forall a b : N, handle_add a b <> 0%N).
+Proof.
+  repeat split; intros; [apply handle_of_bytes_neq | apply handle_from_u32_neq | apply handle_from_u64_neq
+                        | apply handle_add_neq].
+Qed.
+Print Assumptions C13_constructed_handles_nonzero.
